@@ -21,6 +21,8 @@ type c07 struct{}
 
 func init() { engine.Register(c07{}) }
 
+func (c07) PostGenerate(r *engine.Rand, sc *engine.Scenario) { chooseEnvConfig(r, sc) }
+
 func (c07) ID() string { return "C07" }
 
 func (c07) Budget(tier string) int {
